@@ -532,6 +532,8 @@ def check_outcome(ctx, contract, env0, env, expected, out, frame_writes):
         for name, fn in contract.posts:
             if out.kind == 'raise' and not getattr(fn, 'on_raise', False):
                 continue
+            if getattr(fn, 'symbolic_only', False) and getattr(ctx, 'expand_sums', False):
+                continue        # identity / aliasing clauses cannot be judged on a decoded native outcome
             r = fn(ctx, env0, env, out)
             if r is not None:
                 ctx.oblige('%s::%s%s' % (short, name, tag), r)
